@@ -65,7 +65,8 @@ def astFacts : List (String × Nat) := [
   ("shutdownFlagUnderLock", Generated.shutdownFlagUnderLock),
   ("dedupAtomic", Generated.dedupAtomic),
   ("tickerPeriodIsRetry", Generated.tickerPeriodIsRetry),
-  ("activeAddBeforeGo", Generated.activeAddBeforeGo)]
+  ("activeAddBeforeGo", Generated.activeAddBeforeGo),
+  ("serveFlagUnderLock", Generated.serveFlagUnderLock)]
 
 def main : IO Unit := do
   for (n, g, e) in setFacts do
